@@ -683,6 +683,14 @@ func aggregate(prop string, pi *propInfo, tier string, seed int, jobs []*job, fi
 			s.Outcomes[k] += n
 			outcomes[k] += n
 		}
+		if r.Capped == "" {
+			// a search that runs inside one execution reports its own cap in the observation
+			for k := range r.Outcomes {
+				if strings.Contains(k, "capped-at-transition-limit") {
+					r.Capped = "transition limit of the breadth-first search (every depth below the last is complete)"
+				}
+			}
+		}
 		if r.Capped != "" {
 			s.Capped = r.Capped
 			caps = append(caps, j.name+": "+r.Capped)
